@@ -380,3 +380,18 @@ def theorems_of(relpath, namespace):
     src = strip_comments(open(os.path.join(LEAN, relpath)).read())
     names = re.findall(r'^\s*theorem\s+([^\s:({\[]+)', src, re.M)
     return [f'{namespace}.{n}' for n in names]
+
+
+def after_failed_parse(parse, text, **kw):
+    """In 2 of 5 cases (decided by a checksum of the text, so that a case replays exactly) the parser is first given a
+    TRUNCATED copy of the text, which it rejects (or, rarely, accepts): a parse must not depend on what the same process
+    parsed - or failed to parse - before (parser objects, transformers and caches kept between calls)."""
+    import zlib
+    h = zlib.crc32(text.encode('utf-8', 'replace'))
+    if h % 5 < 2 and len(text) > 20:
+        cut = 10 + (h >> 3) % (len(text) - 15)
+        try:
+            with quiet(): parse(text[:cut], **kw)
+        except BaseException as ex:
+            if isinstance(ex, (KeyboardInterrupt, SystemExit)): raise
+    return parse(text, **kw)
